@@ -77,6 +77,9 @@ func (p *c07Pair) spec(v *c07Variant) *simrt.Spec {
 		sp.Parallelism = 1
 	}
 	sp.Seeds = map[string]uint64{"map": v.MapSeed, "sched": v.SchedSeed, "select": v.SchedSeed, "pool": v.PoolSeed}
+	if v.SchedSeed != 0 {
+		sp.Chunk = 128 << (v.SchedSeed % 6) // writes in 128..4096 byte steps: more interleavings of concurrent writers
+	}
 	if v.Stale && len(p.Stale) > 0 {
 		out := v.OutDir
 		if out == "" {
